@@ -176,7 +176,11 @@ func (j *RowWriter) jsonDataForSchema(ctx *sql.Context, row sql.Row) ([]byte, er
 			if err != nil {
 				return true, err
 			}
-			val = converted
+			// TEXT and BLOB values that are stored out of line arrive wrapped: write their contents, not the wrapper
+			val, err = sql.UnwrapAny(ctx, converted)
+			if err != nil {
+				return true, err
+			}
 		}
 
 		colValMap[col.Name] = val
